@@ -21,6 +21,9 @@ MISC_SWITCH_OUT = 1 << 13
 
 S_IP, S_TID, S_TIME, S_CALLCHAIN, S_CPU, S_PERIOD = 1, 2, 4, 32, 128, 256
 S_IDENTIFIER = 1 << 16
+S_REGS_USER, S_STACK_USER = 1 << 12, 1 << 13
+X86_BP, X86_SP, X86_IP = 6, 7, 8          # PERF_REG_X86_*
+USER_SP = 0x7FFD00000000
 MAIN_ID, TRACKING_ID = 11, 22          # the event ids of the two attributes of a two-event file
 SAMPLE_TYPE = S_IP | S_TID | S_TIME | S_CPU | S_PERIOD | S_CALLCHAIN
 
@@ -43,7 +46,7 @@ def _cstr8(s):
 
 
 # the sample_type in force (module-level so that every record writer and build() agree); set_layout() switches it for one file
-_layout = {"sample_type": SAMPLE_TYPE, "task_event": None, "id_all": True, "event": "cpu-clock"}
+_layout = {"sample_type": SAMPLE_TYPE, "task_event": None, "id_all": True, "event": "cpu-clock", "user_stack": False}
 
 
 def set_layout(cpu=True, period=True, ip=True, callchain=True):
@@ -61,11 +64,23 @@ def set_layout(cpu=True, period=True, ip=True, callchain=True):
     _layout["task_event"] = None
     _layout["id_all"] = True
     _layout["event"] = "cpu-clock"
+    _layout["user_stack"] = False
+
+
+def set_user_stack(flag):
+    """flag = True: the event also records the user registers and a copy of the user stack (PERF_SAMPLE_REGS_USER | PERF_SAMPLE_STACK_USER, what
+    `perf record --call-graph dwarf,<size>` asks for; x86-64 registers bp, sp, ip): samples may then carry a stack to be unwound (sample(.., unwind=))"""
+    _layout["user_stack"] = bool(flag)
+    if flag:
+        _layout["sample_type"] |= S_REGS_USER | S_STACK_USER
+    else:
+        _layout["sample_type"] &= ~(S_REGS_USER | S_STACK_USER)
 
 
 def set_event(kind):
-    """the main event: "cpu-clock" (software, time based) or "cycles" (hardware, a fixed period in events - `perf record -e cycles -c N`; the sampling is
-    then not time based)"""
+    """the main event: "cpu-clock" (software, time based), "cycles" (hardware, a fixed period in events - `perf record -e cycles -c N`; the sampling is
+    then not time based) or a tracepoint given by its name, e.g. "kmem:rss_stat" (`perf record -e kmem:rss_stat`: type PERF_TYPE_TRACEPOINT, one sample per
+    event; the name is stored in HEADER_EVENT_DESC)"""
     _layout["event"] = kind
 
 
@@ -127,8 +142,10 @@ def mmap2(pid, tid, addr, length, pgoff, path, time, build_id=None, prot=5, flag
     return _rec(PERF_RECORD_MMAP2, misc, body)
 
 
-def sample(pid, tid, time, ip, callchain, cpu=0, period=1, kernel=False):
-    """callchain: list of u64 (already including context markers if wanted); if None, [PERF_CONTEXT_USER, ip]"""
+def sample(pid, tid, time, ip, callchain, cpu=0, period=1, kernel=False, unwind=None):
+    """callchain: list of u64 (already including context markers if wanted); if None, [PERF_CONTEXT_USER, ip].
+    unwind (with set_user_stack): the return addresses of the callers, leaf-most first - written as a copied user stack holding a well-formed x86-64
+    frame-pointer chain (saved rbp, return address; the root-most record's saved rbp is 0) under registers bp / sp / ip, for the converter to unwind"""
     if callchain is None:
         callchain = [PERF_CONTEXT_USER, ip]
     st = _layout["sample_type"]
@@ -139,6 +156,17 @@ def sample(pid, tid, time, ip, callchain, cpu=0, period=1, kernel=False):
         body += struct.pack("<Q", period)
     if st & S_CALLCHAIN:
         body += struct.pack("<Q", len(callchain)) + b"".join(struct.pack("<Q", x & ((1 << 64) - 1)) for x in callchain)
+    if st & S_REGS_USER:
+        if unwind is None:
+            body += struct.pack("<Q", 0) + struct.pack("<Q", 0)          # PERF_SAMPLE_REGS_ABI_NONE, no stack bytes
+        else:
+            n = len(unwind)
+            words = []
+            for i, ra in enumerate(unwind):
+                words += [USER_SP + 16 * (i + 1) if i + 1 < n else 0, ra]
+            body += struct.pack("<QQQQ", 2, USER_SP if n else 0, USER_SP, ip)          # abi 64; registers in bit order: bp, sp, ip
+            stack = b"".join(struct.pack("<Q", w) for w in words)
+            body += struct.pack("<Q", len(stack)) + stack + (struct.pack("<Q", len(stack)) if stack else b"")
     return _rec(PERF_RECORD_SAMPLE, MISC_KERNEL if kernel else MISC_USER, body)
 
 
@@ -154,9 +182,9 @@ def finished_round():
 def build(records, arch="x86_64", first_time=None, last_time=None, period=1000000, context_switch=False):
     """records: list of bytes.  Returns the file contents."""
     attr = struct.pack("<IIQQQQQIIQQQQIIQIHH",
-                       1 if _layout["event"] == "cpu-clock" else 0,   # type = PERF_TYPE_SOFTWARE | PERF_TYPE_HARDWARE
+                       1 if _layout["event"] == "cpu-clock" else 2 if ":" in _layout["event"] else 0,   # type = PERF_TYPE_SOFTWARE | PERF_TYPE_TRACEPOINT | PERF_TYPE_HARDWARE
                        112,              # size (VER5)
-                       0,                # config = PERF_COUNT_SW_CPU_CLOCK | PERF_COUNT_HW_CPU_CYCLES
+                       511 if ":" in _layout["event"] else 0,   # config = PERF_COUNT_SW_CPU_CLOCK | PERF_COUNT_HW_CPU_CYCLES | the tracepoint's id
                        period,           # sample_period
                        _layout["sample_type"],
                        0,                # read_format
@@ -164,7 +192,7 @@ def build(records, arch="x86_64", first_time=None, last_time=None, period=100000
                        0, 0,             # wakeup, bp_type
                        0, 0,             # config1, config2
                        0,                # branch_sample_type
-                       0, 0, 0,          # sample_regs_user, sample_stack_user, clockid
+                       ((1 << X86_BP) | (1 << X86_SP) | (1 << X86_IP)) if _layout["user_stack"] else 0, 65528 if _layout["user_stack"] else 0, 0,   # sample_regs_user, sample_stack_user, clockid
                        0,                # sample_regs_intr
                        0, 0, 0)          # aux_watermark, sample_max_stack, reserved
     assert len(attr) == 112
@@ -176,7 +204,7 @@ def build(records, arch="x86_64", first_time=None, last_time=None, period=100000
         ids = b""
     else:
         # two attributes: cpu-clock (ids [MAIN_ID]) and a software dummy event (config 9, ids [TRACKING_ID]); the id arrays precede the attributes
-        dummy = attr[:8] + struct.pack("<Q", 9) + attr[16:]
+        dummy = struct.pack("<II", 1, 112) + struct.pack("<Q", 9) + attr[16:]
         ids = struct.pack("<QQ", MAIN_ID, TRACKING_ID)
         attr_entry = attr + struct.pack("<QQ", header_size, 8) + dummy + struct.pack("<QQ", header_size + 8, 8)
         attr_size = 128
@@ -186,16 +214,19 @@ def build(records, arch="x86_64", first_time=None, last_time=None, period=100000
     a = arch.encode() + b"\0"
     a = a + bytes((-len(a)) % 4)
     feat[HEADER_ARCH] = struct.pack("<I", len(a)) + a
+    def hstr(x):
+        b = x.encode() + b"\0"
+        b += bytes(-len(b) % 8)
+        return struct.pack("<I", len(b)) + b
     if _layout["task_event"] is not None:
         # HEADER_EVENT_DESC: the reader takes the event ids (and names) from here
-        def hstr(x):
-            b = x.encode() + b"\0"
-            b += bytes(-len(b) % 8)
-            return struct.pack("<I", len(b)) + b
         desc = struct.pack("<II", 2, 112)
-        for a_, name, i in ((attr, "cpu-clock", MAIN_ID), (dummy, "dummy:HG", TRACKING_ID)):
+        for a_, name, i in ((attr, _layout["event"], MAIN_ID), (dummy, "dummy:HG", TRACKING_ID)):
             desc += a_ + struct.pack("<I", 1) + hstr(name) + struct.pack("<Q", i)
         feat[12] = desc
+    elif ":" in _layout["event"]:
+        # one named event: HEADER_EVENT_DESC with a single entry and no ids
+        feat[12] = struct.pack("<II", 1, 112) + attr + struct.pack("<I", 0) + hstr(_layout["event"])
     if first_time is not None:
         feat[HEADER_SAMPLE_TIME] = struct.pack("<QQ", first_time, last_time if last_time is not None else first_time)
     bits = [0, 0, 0, 0]
